@@ -66,6 +66,16 @@ CHECKS = {
    note="Known findings: crossbars ignore timeout_cycles (C11-F1/F1b), accepted-but-unanswered AXI requests never time out "
         "(C11-F2). Slaves answering later than the timeout are outside the property's fault model (only the expiry cycle).",
    tech="deterministic simulation with slave-silence fault injection enumerated over every cycle, bounded-termination oracle"),
+ "C12": dict(cat="exploration", ref="DESIGN.md 5.C12",
+   text="Real CSRBankArray/CSRBank/Interconnect over 1-3 banks of seeded register sets (CSR, CSRStatus, CSRStorage with "
+        "atomic/device-writable/reset_less, fields with offsets/pulse/reset, sizes 1..70, fixed and automatic locations), "
+        "bus width 8/16/32, big/little ordering, paging; software issues a literal access list (mapped, unmapped, other "
+        "banks/pages) while a device agent updates status/CSR.w and races device writes against bus writes in the same "
+        "cycle; a register-file model is stepped on the recorded inputs and every observable is compared every cycle. "
+        "Sampling, not proof.",
+   note="Known finding C12-F1 (atomic + little ordering) excluded by region; bus-write-wins priority in a same-cycle race is "
+        "an interpretation of the statement (stated in the evidence).",
+   tech="deterministic simulation, seeded access/device-update interleaving incl. same-cycle races, per-cycle refinement against a register-file model"),
  "C16": dict(cat="exploration", ref="DESIGN.md 5.C16",
    text="Seeded search over header definitions, data widths, packet lists, valid/ready schedules and selector changes for "
         "Packetizer, Depacketizer, their round trip, PacketFIFO, Arbiter and Dispatcher on the real simulator; outputs "
